@@ -10,8 +10,8 @@
        for a proper algebraic number; the polynomial is libpoly's, not normalised),
      - what libpoly answered: a representation, an integer, a truth value, a rational, or "undefined".
    `accept_op` computes the answer with the PROVED reference arithmetic of RefAlg.v (Properties_Base.v: Base_rn_add ..
-   Base_rn_to_rational) on the normalised operands and compares: representations through RefineCheck.same_number
-   (rn_valid + rn_cmp = Some 0: valid and the same real number), scalars exactly. *)
+   Base_rn_to_rational) on the normalised operands and compares: representations through `same_num` (the certificate
+   test cert_eq, else RefineCheck.same_number = rn_valid + rn_cmp = Some 0: valid and the same real number), scalars exactly. *)
 From Coq Require Import ZArith NArith List Bool.
 From LP Require Import Scalar UPoly RefAlg RefineCheck AlgNum.
 Import ListNotations.
@@ -90,9 +90,24 @@ Definition rn_eqrep (x y : rnum) : bool :=
   | _, _ => false
   end.
 
+(* r (printed by libpoly: RA f lo hi, f as it is) against a reference number z = RA q l h, by CERTIFICATE instead of a second
+   root count: r is valid (exactly one root w of f in ]lo,hi[), the number v of z lies in ]lo,hi[ (two comparisons with
+   rationals), and gcd(f, q) has opposite signs at l and h - so f and q have a common root in ]l,h[, which is v (the only
+   root of q there); hence f(v) = 0 and w = v.  One gcd, no square-free part or Sturm chain of the gcd.  Complete when q
+   is square-free (the reference results are); anything else falls back to RefineCheck.same_number. *)
+Definition cert_eq (r z : rnum) : bool :=
+  match r, z with
+  | RA f lo hi, RA q l h =>
+    rn_valid r && (0 <? rn_cmp_q z lo) && (rn_cmp_q z hi <? 0) &&
+    (let g := pgcd f q in
+     (psgn_q g l <? 0) && (0 <? psgn_q g h) || (0 <? psgn_q g l) && (psgn_q g h <? 0))
+  | _, _ => false
+  end.
+Definition same_num (fuel : nat) (r z : rnum) : bool := cert_eq r z || same_number fuel r z.
+
 (* the reference result exists and the printed representation is a valid representation of the same real *)
 Definition same_as (fuel : nat) (r : rnum) (o : option rnum) : bool :=
-  match o with Some z => same_number fuel r z | None => false end.
+  match o with Some z => same_num fuel r z | None => false end.
 
 Definition dy_q (d : dyadic) : rat := (da d, pow2 (dn d)).
 Definition z_q (z : Z) : rat := (z, 1).
@@ -106,7 +121,7 @@ Definition within_eps (x : rnum) (q eps : rat) : bool :=
 
 Definition accept_op (fuel : nat) (op : c07_op) (args : list rnum) (res : c07_result) : bool :=
   match op, args, res with
-  | KSame, [x], VNum r => rn_eqrep x r || same_number fuel r (rn_norm x)
+  | KSame, [x], VNum r => rn_eqrep x r || same_num fuel r (rn_norm x)
   | _, _, _ =>
   match op, map rn_norm args, res with
   | KAdd, [x; y], VNum r => same_as fuel r (add_sh fuel x y)
@@ -114,7 +129,7 @@ Definition accept_op (fuel : nat) (op : c07_op) (args : list rnum) (res : c07_re
   | KMul, [x; y], VNum r => same_as fuel r (mul_sh fuel x y)
   | KDiv, [x; y], VNum r => same_as fuel r (div_sh fuel x y)
   | KDiv, [x; y], VUndef => rn_sgn y =? 0
-  | KNeg, [x], VNum r => same_number fuel r (rn_neg x)
+  | KNeg, [x], VNum r => same_num fuel r (rn_neg x)
   | KInv, [x], VNum r => same_as fuel r (rn_inv fuel x)
   | KInv, [x], VUndef => rn_sgn x =? 0
   | KPow n, [x], VNum r => same_as fuel r (pow_sh fuel x n)
